@@ -268,18 +268,16 @@ package db
 // (H = the history of the SyncData the load returned):
 //  - a revision id that is in H is never reported missing, so a caught-up peer that is offered revisions it already
 //    holds asks for nothing (and names no possible ancestors);
-//  - a revision id that is not in H is reported missing, and nothing is reported that was not offered;
+//  - a revision id that is not in H is reported missing, and no more ids are reported than were offered;
 //  - when the document cannot be loaded everything offered is reported missing.
-// BOUND: len(revids) <= 1. The only replication call site passes exactly one id. The REST _revs_diff handler passes
-// several; that case is not covered: inside the loop RevDiff calls RevTree.forEachLeaf, whose contract (db/zz_verif_c04.go)
-// requires that no leaf of the tree has been recorded in the ghost set leafVisited yet, so it can be used once per tree
-// and function; a second iteration cannot establish it. The ghost precondition [no-leaf-recorded] is that bookkeeping.
-//@ pred noneRecorded() bool
-//@   is forall l string :: {l in leafVisited} !(l in leafVisited)
-
+// Any number of offered ids (BLIP passes one per call, the REST _revs_diff handler several). RevDiff calls
+// RevTree.forEachLeaf once per unknown id; that is possible because forEachLeaf's contract (db/zz_verif_c04.go) `resets`
+// its ghost record leafVisited at every call.
+// Not stated: "every reported id was offered" (forall i: elem(revids, missing[i])). It is true, but keeping it across
+// `missing = append(missing, revid)` needs a read of the old backing array from a read of the new one, which the engine's
+// append axioms do not produce (60 s time-out on inv-keep@loop1/only-offered@b12); [no-more-than-offered] bounds the count instead.
 //@ func DatabaseCollectionWithUser.RevDiff
-//@   requires db != nil && len(revids) <= 1
-//@   requires[no-leaf-recorded] noneRecorded()
+//@   requires db != nil
 //@   modifies leafVisited
 //@   ensures[design-doc]  skippedDesignDoc(db, docid) ==> len(missing) == 0 && len(possible) == 0 && !called(GetDocSyncDataNoImport, 1)
 //@   ensures[unknown-doc] called(GetDocSyncDataNoImport, 1) && !isNilErr(callres(GetDocSyncDataNoImport, 1, 2)) ==> missing == revids && len(possible) == 0
@@ -287,14 +285,13 @@ package db
 //@                        (forall i int :: {missing[i]} 0 <= i && i < len(missing) ==> !(missing[i] in callres(GetDocSyncDataNoImport, 1, 0).History))
 //@   ensures[unknown-missing]   called(GetDocSyncDataNoImport, 1) && isNilErr(callres(GetDocSyncDataNoImport, 1, 2)) ==>
 //@                        (forall j int :: {revids[j]} 0 <= j && j < len(revids) && !(revids[j] in callres(GetDocSyncDataNoImport, 1, 0).History) ==> elem(missing, revids[j]))
-//@   ensures[only-offered]      called(GetDocSyncDataNoImport, 1) && isNilErr(callres(GetDocSyncDataNoImport, 1, 2)) ==>
-//@                        (forall i int :: {missing[i]} 0 <= i && i < len(missing) ==> elem(revids, missing[i]))
+//@   ensures[no-more-than-offered] len(missing) <= len(revids)
 //@   ensures[caught-up]   called(GetDocSyncDataNoImport, 1) && isNilErr(callres(GetDocSyncDataNoImport, 1, 2)) &&
 //@                        (forall j int :: {revids[j]} 0 <= j && j < len(revids) ==> (revids[j] in callres(GetDocSyncDataNoImport, 1, 0).History)) ==> len(missing) == 0 && len(possible) == 0
-//@   loop 1 invariant[first]  #index < 0 ==> leafVisited == old(leafVisited) && len(missing) == 0 && len(possibleSet) == 0
+//@   loop 1 invariant[own-array] missing == nil || !sameArray(missing, revids)
 //@   loop 1 invariant[known-not-missing] forall i int :: {missing[i]} 0 <= i && i < len(missing) ==> !(missing[i] in syncData.History)
 //@   loop 1 invariant[unknown-missing]   forall j int :: {revids[j]} 0 <= j && j <= #index && !(revids[j] in syncData.History) ==> elem(missing, revids[j])
-//@   loop 1 invariant[only-offered]      forall i int :: {missing[i]} 0 <= i && i < len(missing) ==> elem(revids, missing[i])
+//@   loop 1 invariant[no-more-than-offered] len(missing) <= #index + 1 && #index < len(revids)
 //@   loop 1 invariant[caught-up]         (forall j int :: {revids[j]} 0 <= j && j <= #index ==> (revids[j] in syncData.History)) ==> len(missing) == 0 && len(possibleSet) == 0
 
 // legacyRevToHybridLogicalVector is TRUSTED (thin frame contract). Its body encodes the revision id as a version
@@ -321,3 +318,74 @@ package db
 //@   ensures[asked]       !skippedDesignDoc(db, docid) && !(called(localVersionDominates, 1) && callres(localVersionDominates, 1, 0)) ==> len(missing) == 1 && missing[0] == rev
 //@   before[consults-loaded-vector] call localVersionDominates#1 isNilErr(callres(GetDocSyncDataNoImport, 1, 2)) && isNilErr(callres(parseIncomingChange, 1, 2)) && $1 == callres(parseIncomingChange, 1, 0) &&
 //@                        $0 == ite(callres(GetDocSyncDataNoImport, 1, 1) != nil, callres(GetDocSyncDataNoImport, 1, 1), callres(legacyRevToHybridLogicalVector, 1, 0))
+
+// ---- where a replication resumes ----
+
+//@ props C06 C17
+
+// setLastCheckpointSeq decides the sequence a (re)started replication resumes from, out of the local checkpoint
+// document (loaded here) and the remote one (handed in). "A caught-up replication has transferred everything" needs the
+// resume point to be not above EITHER checkpoint: everything at or below the lower one was processed on both sides.
+//  - a stored sequence is used (parsed by ParsePlainSequenceID) only when both checkpoints carry the current config hash;
+//    otherwise -- hashes differ, or a checkpoint is missing (its LastSeq is "") -- the replication restarts from zero;
+//  - the string used is the common one when the two are equal, else the one that parses to the lower sequence
+//    (the remote one when remote.Before(local), the local one otherwise);
+//  - hence neither parsed checkpoint is Before the resume point.
+// Path contract (`modifies *`): setLocalCheckpoint / setRemoteCheckpoint (a bucket write / a BLIP request, rolling the
+// higher checkpoint back) are opaque, so the clauses are stated over the values read before those calls (the locals
+// localSeq, remoteSeq and the results of the two parseIntegerSequenceID calls) and, for the hashes, at the moment the
+// sequence is parsed for use.
+// (The locals localSeq / remoteSeq can be named in the call-site clauses but not in `ensures` -- they do not exist at the
+// first return, engine message "unknown identifier localSeq" -- so the postconditions say "the two differ" as "the two
+// were parsed": parseIntegerSequenceID is called exactly when localSeq != remoteSeq.)
+// (ParsePlainSequenceID's contract in db/zz_verif_c20.go says nothing about the value returned with an error -- the
+// body returns SequenceID{} at every error return -- so [resume-or-zero] is stated for a successful parse.)
+//@ func Checkpointer.setLastCheckpointSeq
+//@   requires c != nil && remoteCheckpoint != nil
+//@   modifies *
+//@   only-contracts parseIntegerSequenceID, ParsePlainSequenceID, Before
+//@   propagates getLocalCheckpoint#1
+//@   before[hashes-current] call ParsePlainSequenceID#1 localCheckpoint.ConfigHash == c.configHash && remoteCheckpoint.ConfigHash == c.configHash
+//@   before[lower-of-the-two] call ParsePlainSequenceID#1 $0 != "" && ite(localSeq == remoteSeq, $0 == localSeq,
+//@                        called(parseIntegerSequenceID, 2) && isNilErr(callres(parseIntegerSequenceID, 1, 1)) && isNilErr(callres(parseIntegerSequenceID, 2, 1)) &&
+//@                        $0 == ite(callres(parseIntegerSequenceID, 2, 0).Before(callres(parseIntegerSequenceID, 1, 0)), remoteSeq, localSeq))
+//@   ensures[parses-both]    isNilErr(result) && called(parseIntegerSequenceID, 1) ==> called(parseIntegerSequenceID, 2) && isNilErr(callres(parseIntegerSequenceID, 1, 1)) && isNilErr(callres(parseIntegerSequenceID, 2, 1))
+//@   ensures[zero-unless-used] isNilErr(result) && !called(ParsePlainSequenceID, 1) ==> c.lastCheckpointSeq == SequenceID{}
+//@   ensures[resume-or-zero] isNilErr(result) && called(ParsePlainSequenceID, 1) ==> c.lastCheckpointSeq == callres(ParsePlainSequenceID, 1, 0)
+//@   ensures[not-above-either] isNilErr(result) && called(parseIntegerSequenceID, 1) && (!called(ParsePlainSequenceID, 1) || isNilErr(callres(ParsePlainSequenceID, 1, 1))) ==>
+//@                        !callres(parseIntegerSequenceID, 1, 0).Before(c.lastCheckpointSeq) && !callres(parseIntegerSequenceID, 2, 0).Before(c.lastCheckpointSeq)
+
+//@ props C06
+
+// ---- a pulled revision is reported as processed only after it was stored ----
+
+// processRev handles one incoming `rev` message. On the active side of an inter-gateway pull the handler carries
+// sgr2PullProcessedSeqCallback, which hands the message's remote sequence to the Checkpointer (AddProcessedSeq); the
+// checkpoint then moves past that sequence. "A caught-up replication has transferred everything" needs: the callback
+// is invoked only for a revision that is dealt with for good. The code has exactly two call sites of the callback
+// (the only two calls of a function value in the body):
+//  - [purged-before-processed]  the removal notice of a purge-on-removal replication: after Purge returned no error;
+//  - [stored-before-processed]  every other message: after PutExistingCurrentVersion (version-vector message) or
+//    PutExistingRevWithConflictResolution (revision-tree message) returned no error. (A revision that is already
+//    known locally is not a separate case here: both Put functions answer it with a nil error themselves.
+//    `norev` messages do not come through processRev.)
+// and the sequence handed over is the one parsed without error from the message by the ParseJSONSequenceID call of that
+// path.
+// NOT stated: "the error of Purge / either Put reaches the caller" (`propagates Purge#1`, `propagates
+// PutExistingCurrentVersion#1`, `propagates PutExistingRevWithConflictResolution#1`). The named result `err` is a cell
+// captured by the deferred statistics closure, and the second deferred closure (release of the in-flight throttle) is
+// registered conditionally; the engine abstracts that ("deferred call func in db.blipHandler.processRev (registered
+// conditionally) abstracted: heap havocked at return"), which also forgets the cell holding `err`, so nothing can be
+// proved about the returned value (the three obligations time out at 60 s). What is proved instead is the half that the
+// checkpoint depends on: after a failed Purge/Put the callback is not reached.
+// Path contract on a large function (`modifies *`, no callee contracts): every callee is opaque, the clauses only order
+// the calls and relate their results.
+//@ func blipHandler.processRev
+//@   modifies *
+//@   only-contracts none
+//@   before[purged-before-processed] call dynamic#1 called(Purge, 1) && isNilErr(callres(Purge, 1, 0)) && !called(PutExistingCurrentVersion, 1) && !called(PutExistingRevWithConflictResolution, 1)
+//@   before[purged-sequence]         call dynamic#1 isNilErr(callres(ParseJSONSequenceID, 1, 1)) && *$0 == callres(ParseJSONSequenceID, 1, 0)
+//@   before[stored-before-processed] call dynamic#2 !called(Purge, 1) &&
+//@                        ((called(PutExistingCurrentVersion, 1) && isNilErr(callres(PutExistingCurrentVersion, 1, 3))) ||
+//@                         (called(PutExistingRevWithConflictResolution, 1) && isNilErr(callres(PutExistingRevWithConflictResolution, 1, 2))))
+//@   before[stored-sequence]         call dynamic#2 isNilErr(callres(ParseJSONSequenceID, 2, 1)) && *$0 == callres(ParseJSONSequenceID, 2, 0)
